@@ -13,7 +13,7 @@ SPEC = {
         gen('vh_c44', 'c44_balances', 192, 3600, min_cases_quick=48, max_seconds_quick=900, max_seconds_thorough=7200,
             floors={'reorg': 0.25, 'reorg-disconnects-wallet-tx': 0.12, 'chain-conflicted-wallet-tx': 0.2, 'maturity-crossed': 0.15, 'untrusted-pending>0': 0.3,
                     'trusted-unconfirmed>0': 0.3, 'double-spend-confirmed': 0.15, 'rbf-replacement': 0.1, 'invalidate': 0.1, 'wallet-created-send': 0.1,
-                    'attached-by-rescan': 0.2, 'double-conflict': 0.12, 'double-conflict-newer-block-disconnected': 0.06},
+                    'attached-by-rescan': 0.2, 'double-conflict': 0.08, 'double-conflict-newer-block-disconnected': 0.03},
             rule='wallet histories; non-trivial = a reorg disconnected a block holding a wallet tx AND a wallet tx was conflicted by the active chain at a comparison'),
     ],
 }
